@@ -54,6 +54,7 @@ type LoopSpec struct {
 	Invariants []Clause
 	Decreases  *Clause
 	Unroll     int
+	InlineUnroll int // unroll bound used only when the function's body is inlined into a lemma function
 	Modifies   []Clause
 }
 
@@ -77,6 +78,7 @@ type Contract struct {
 	MayPanic  bool
 	Asserts   []AssertAt
 	Alloc     *Clause  // upper bound (in elements) on every allocation the function makes whose size is not constant
+	Inlines   []string // (lemma functions) callees whose bodies are executed instead of their contracts
 	UseInst   []Clause // explicit lemma instances: lemma(args...) over the function's parameters
 }
 
@@ -418,6 +420,8 @@ func (lib *SpecLib) loadFile(path, prefix string) error {
 					return bad(err)
 				}
 				cur.Alloc = &c
+			case "inlines":
+				cur.Inlines = append(cur.Inlines, strings.FieldsFunc(rest, func(r rune) bool { return r == ',' || r == ' ' })...)
 			case "inline":
 				cur.Inline = true
 			case "trusted":
@@ -467,6 +471,12 @@ func (lib *SpecLib) loadFile(path, prefix string) error {
 						return bad(err)
 					}
 					ls.Unroll = n
+				case "inline-unroll":
+					n, err := strconv.Atoi(strings.TrimSpace(arg))
+					if err != nil {
+						return bad(err)
+					}
+					ls.InlineUnroll = n
 				case "modifies":
 					ms, err := parseModifies(arg, where)
 					if err != nil {
